@@ -78,3 +78,10 @@ for pid in ("C15", "C16"):
     fault(pid, "init-head", [], ["init"], "HEAD:write", "interrupted init left an empty HEAD")
 fault("C16", "commit-branch-read-error-drops-parent", STAGED, ["commit", "-m", "second"], "branch:readfile#3", "any error reading the branch file was taken for 'first commit'")
 print("fault pins written")
+
+scen("C18", "robust", "branch-name-with-colon-space", INIT + [w("a", "1"), g("add", "a"), g("commit", "-m", "c1"), g("switch", "-c", "a: b"),
+     g("status"), g("reset", "--soft", "HEAD@{0}"), g("rev-parse", "HEAD"), g("log"), w("a", "2"), g("add", "a"), g("commit", "-m", "c2"), g("branch", "--list")],
+     "HEAD content was split at ': ': branch 'a: b' resolved to 'a', nil HEAD commit, reset panicked")
+scen("C10", "branch", "branch-name-with-colon-space", INIT + [w("a", "1"), g("add", "a"), g("commit", "-m", "c1"), g("switch", "-c", "a: b"),
+     w("a", "2"), g("add", "a"), g("commit", "-m", "c2"), g("switch", "main"), g("branch", "-d", "a: b")],
+     "HEAD content was split at ': '")
